@@ -306,7 +306,10 @@ struct Worker {
 	static std::string vclass(const Json & v) { std::string c = v.gets("clause"); if (v.has("class")) c += "/" + v.gets("class"); return c; }
 
 	// ddmin over plan["ops"], then engine-specific simplifications; same violation class must persist
-	Json shrink(const Json & plan0, const Json & viol0, int budget, int * used) {
+	Json shrink(const Json & plan0, const Json & viol0, int budget, int * used, double max_seconds = 0) {
+		// max_seconds bounds how long minimisation may take; it only decides how small the replay gets - whatever plan is
+		// current when time runs out is confirmed twice in fresh processes like any other, so the verdict never depends on it
+		double stop_at = max_seconds > 0 ? now_s() + max_seconds : 0;
 		Json plan = plan0;
 		std::string want = vclass(viol0);
 		int runs = 0;
@@ -314,6 +317,7 @@ struct Worker {
 		tried.insert(fnv_str(plan0.dump()));
 		auto test = [&](Json cand) -> bool {
 			if (runs >= budget) return false;
+			if (stop_at && now_s() > stop_at) { runs = budget; return false; }
 			if (!eng->fixup(cand)) return false;
 			// a candidate must be strictly simpler (fixup may re-add closing operations) and new
 			std::string cd = cand.dump(), pd = plan.dump();
@@ -367,7 +371,7 @@ static uint64_t run_seed_for(uint64_t base, const std::string & engine, uint64_t
 struct Opts {
 	std::string engine, tier = "quick", out = "/verif/out", variant = "?", src_hash = "?";
 	uint64_t seed = 20261001, runs = 1000, start = 0;
-	int workers = 16, recheck_pct = 2, max_seconds = 0, shrink_budget = 300, max_viol_per_worker = 2;
+	int workers = 16, recheck_pct = 2, max_seconds = 0, shrink_budget = 300, max_viol_per_worker = 2, shrink_seconds = 150;
 	bool no_shrink = false;
 };
 
@@ -436,7 +440,7 @@ static int worker_main(const Opts & o, int w, Engine * eng) {
 			violations++;
 			Json plan_min = plan;
 			int used = 0;
-			if (!o.no_shrink) plan_min = wk.shrink(plan, v, o.shrink_budget, &used);
+			if (!o.no_shrink) plan_min = wk.shrink(plan, v, violations == 1 ? o.shrink_budget : o.shrink_budget / 3, &used, violations == 1 ? o.shrink_seconds : o.shrink_seconds / 3);
 			// confirm twice in fresh processes: same class, same event-log hash
 			ChildOutcome c1, c2;
 			Json v1 = wk.evaluate(plan_min, &c1), v2 = wk.evaluate(plan_min, &c2);
@@ -549,6 +553,7 @@ int main(int argc, char ** argv) {
 		else if (a == "--max-seconds") o.max_seconds = atoi(val().c_str());
 		else if (a == "--recheck-pct") o.recheck_pct = atoi(val().c_str());
 		else if (a == "--shrink-budget") o.shrink_budget = atoi(val().c_str());
+		else if (a == "--shrink-seconds") o.shrink_seconds = atoi(val().c_str());
 		else if (a == "--no-shrink") o.no_shrink = true;
 		else if (a == "--index") index = strtoull(val().c_str(), nullptr, 10);
 		else if (a == "--child-timeout") g_child_timeout_s = atoi(val().c_str());
